@@ -811,10 +811,11 @@ func (f *frame) backEdge(li *loopInfo, from *ssa.BasicBlock, succIdx int) {
 		f.obligeNoAssume("decreases", fmt.Sprintf("loop %d %s", li.ordinal, li.spec.Decreases.Text), li.spec.Decreases.Props, token.NoPos, cond)
 	}
 	// cover: the back edge is reachable (a dead loop body would make every inv-step vacuous)
-	if vc.pass == 2 && f.depth == 0 && len(li.spec.Invariants) > 0 {
+	if vc.pass == 2 && f.depth == 0 && len(li.spec.Invariants) > 0 && f.reachOut[from].S != "false" && f.reachOut[from].S != "" && !(vc.con != nil && vc.con.NoReturn) {
 		ob := vc.addObligation("cover", fmt.Sprintf("backedge@block%d->%d", from.Index, li.header.Index), nil, from.Instrs[len(from.Instrs)-1].Pos(), edge, TTrue)
 		ob.Cover = true
 		ob.BackEdge = true
+		ob.LoopHdr = li.header.Index
 	}
 	f.reach = savedReach
 	for _, phi := range phis {
